@@ -160,12 +160,18 @@ def chunk_worker(job):
         root = os.path.join(d, "p")
         os.makedirs(root)
         P.git(root, "init", "-q")
+        hangs = 0
         for j, inst in enumerate(insts):
+            if hangs >= 2:
+                break      # the subject does not terminate on these graphs: two witnesses are enough, do not burn the budget
             k = offset + j
             pk = build(root, inst, k)
             tgt = "//%s:t%d" % (pk[inst["t"] - 1], inst["t"])
             code, err = mini_cli(["--debug", "run", "--check", tgt], root)
             check = classify(code, err)
+            if "HarnessTimeout" in err:
+                hangs += 1
+                check = "hang"
             row = {"id": k, "d": inst["d"], "t": inst["t"], "check": check, "run": check, "spawnsOnError": 0,
                    "hasProj": False, "proj": "", "roots": [], "stderr": err[-300:] if check.startswith(("other", "crash")) else ""}
             if do_proj and inst["t"] == 1 and all(len(set(x)) == len(x) for x in inst["d"]):
@@ -256,9 +262,14 @@ def main(tier):
     nfk = 300 if tier == "quick" else 4000
     by_id = {r["id"]: r for r in rows}
     sample = [r["id"] for r in rows if r["check"] != "ok"][:nfk // 2] + [r["id"] for r in rows if r["check"] == "ok"][:nfk // 2]
-    fres = C.fork_map(fk_worker, [(insts[i], i) for i in sample], timeout=120)
+    if any(r["check"] == "hang" for r in rows):
+        sample = sample[:16]
+    fres = C.fork_map(fk_worker, [(insts[i], i) for i in sample], timeout=40)
     for i, fr in zip(sample, fres):
-        if fr is None or "_error" in fr or "_timeout" in fr:
+        if fr is not None and "_timeout" in fr:
+            by_id[i]["run"] = "hang"       # the subject never returned: no justified verdict
+            continue
+        if fr is None or "_error" in fr:
             rep.machinery("fake-kernel run failed: %s" % str(fr)[:500])
             continue
         by_id[i]["run"] = fr["run"]
